@@ -18,7 +18,10 @@ RULE = ("Hypothesis-generated annotations (multi-isoform, overlapping and antise
         "shifts <= delta, exonic indels <= 5 bp, 5'/3' truncation, soft clips, polyA/polyT at the 3' end) and class F "
         "(unannotated structure differing from every overlapping isoform by wide-margin changes, verified by the "
         "reference model before the run). Non-trivial = W read with >= 1 junction and >= 1 applied perturbation in a "
-        "locus where >= 2 isoforms overlap the read, or any F read; distinct by (scenario hash, read name).")
+        "locus where >= 2 isoforms overlap the read, or any F read; distinct by (scenario hash, read name). "
+        "Stage files: a two-file experiment against each file alone (non-trivial = > 3 reported rows). Stage "
+        "crowded_end: 2-8 isoforms with a donor 6-14 bp before the end of T, reads of T with a tail (every case "
+        "non-trivial).")
 ASSUMPTIONS = ["tolerances as documented: delta 0/4/6/12, minor elongation 50 bp; untruncated W ends lie inside T by "
                "0..delta (outward offsets are not a documented tolerance)",
                "SURE_INCOMPATIBLE needs a wide-margin witness (see vlib/refmodel/compat.py); everything else is "
